@@ -33,7 +33,8 @@ type OpFeatures struct {
 	NullLiterals     bool
 	AbstractFrags    bool // type-conditioned fragments on interface/union members
 	ExplicitID       bool // client selects id itself (plain, on a level without fragments)
-	IDAlias          bool // client-selected id may carry an alias or a directive
+	IDAlias          bool // client-selected id may carry an alias
+	IDDirective      bool // client-selected id may carry @skip/@include
 	IDWithFragments  bool // client-selected id next to fragments on the same level
 	AbstractNested   bool // composite sub-selections below a field of interface/union type
 	AbstractCondFrag bool // fragments whose type condition is an interface/union
